@@ -64,7 +64,8 @@ def leaf_st(draw, allow_stretchy):
         return {'k': 'barekw', 'bits': draw(bits_st(max_len=20)), 'vkind': draw(st.sampled_from(['Bits', 'BitArray', 'str', 'bytes']))}
     if k in (3, 4):
         name = draw(st.sampled_from(c10.KINDS))
-        v = draw(st.one_of(st.integers(0, 12), st.integers(0, 100000)))
+        v = draw(st.one_of(st.integers(0, 12), st.integers(0, 100000), st.integers(0, 100000),
+                           st.builds(lambda e, d: max(0, 2 ** e - 4 + d), st.integers(1, 200), st.integers(0, 8))))
         if name in ('se', 'sie') and draw(st.booleans()):
             v = -v
         return {'k': 'gol', 'name': name, 'v': v, 'place': draw(st.sampled_from(['pos', 'pos', 'lit', 'kwv']))}
